@@ -670,7 +670,12 @@ def _loop_exit_divisor(ctx, f, node, D, S):
     rnode = cfg.node_containing(c)
     # booking dominated by V - RESV > 0 where V is the divisor (same value)
     ex = Expander(prog, f, ctx.typer)
-    conds = facts.node_conditions(prog, f, c, ctx.typer)
+    # a cursor stepped by `d = d - DAY` must stay an atom: expanding it inside the loop would name the previous day
+    selfref = {d.var for d in fl.defs if d.kind == 'assign' and d.value is not None and
+               any(isinstance(x, ast.Name) and x.id == d.var for x in ast.walk(d.value))}
+    conds = []
+    for t, pol in cfg.conditions(rnode):
+        conds += facts.split_conj(ex.expand(t, cfg.node_containing(t), stop=selfref), pol)
     cap_of_booking = None
     for t, p in conds:
         s2 = sched.sign_test(t, p)
@@ -680,7 +685,7 @@ def _loop_exit_divisor(ctx, f, node, D, S):
                 cap_of_booking = fr['cap']
     if cap_of_booking is None:
         return "the booking is not guarded by free > 0"
-    Dx = ex.expand(D, cn)
+    Dx = ex.expand(D, cn, stop=selfref)
     capD = parse_cap(Dx)
     if capD is None and isinstance(D, ast.Name):
         ds = [d for d in fl.defs_of(D.id) if d.kind == 'assign' and parse_cap(d.value)]
